@@ -44,16 +44,22 @@ pub fn unesc_line(s: &str) -> Vec<u8> {
 }
 
 pub fn opts_line(o: &Opts, observer: Option<&str>) -> String {
+    let hx = |v: &Vec<String>| v.iter().map(|s| format!("{}_", s.bytes().map(|b| format!("{:02x}", b)).collect::<String>())).collect::<Vec<_>>().join(",");
     format!(
-        "opts U={} R={} d={} f={} O={}",
+        "opts U={} R={} d={} f={} O={} u={} c={} i={} o={}",
         o.u as u8,
         o.r as u8,
         o.delete_after,
         match &o.filter {
-            Some(f) => f.iter().map(|x| x.to_string()).collect::<Vec<_>>().join(","),
+            Some(f) if !f.is_empty() => f.iter().map(|x| x.to_string()).collect::<Vec<_>>().join(","),
+            Some(_) => "none".into(),
             None => "-".into(),
         },
-        observer.map(|s| s.replace(' ', "_")).unwrap_or("-".into())
+        observer.map(|s| s.replace(' ', "_")).unwrap_or("-".into()),
+        o.update,
+        o.count as u8,
+        hx(&o.display),
+        hx(&o.order),
     )
 }
 
@@ -91,9 +97,23 @@ pub fn run_script(script: &str) -> (bool, String) {
                             "f" => {
                                 o.filter = if v == "-" {
                                     None
+                                } else if v == "none" {
+                                    Some(vec![])
                                 } else {
                                     Some(v.split(',').filter_map(|x| x.parse().ok()).collect())
                                 }
+                            }
+                            "u" => o.update = v.parse().unwrap_or(o.update),
+                            "c" => o.count = v == "1",
+                            "i" | "o" => {
+                                let list: Vec<String> = v
+                                    .split(',')
+                                    .map(|x| {
+                                        let x = x.trim_end_matches('_');
+                                        (0..x.len() / 2).filter_map(|i| u8::from_str_radix(&x[2 * i..2 * i + 2], 16).ok()).map(|b| b as char).collect()
+                                    })
+                                    .collect();
+                                if k == "i" { o.display = list } else { o.order = list }
                             }
                             "O" => {
                                 if v != "-" {
